@@ -143,6 +143,7 @@ def run(ctx):
 
 
     d5_scratch_constant(db, rep)
+    d6_sibling_rows(db, rep, FLOAT)
 
 
 def d5_scratch_constant(db, rep):
@@ -183,3 +184,47 @@ def d5_scratch_constant(db, rep):
                   "orc_compiler_get_temp_constant can return `%s`, which is not a scratch register obtained from orc_compiler_get_temp_reg: "
                   "rules that use the temporary constant as a destination (e.g. the saturation fix-up of convfl/convdl) then overwrite a value "
                   "that stays live, and native results stop agreeing with emulation" % (unparse(bad[0])[:60] if bad else "?"), line=r.line)
+
+
+def d6_sibling_rows(db, rep, FLOAT):
+    """D6: SSE and AVX implement the same float opcodes with the same instruction set (the AVX forms are the VEX encodings of
+    the same table rows).  Where both rules of an opcode consist of a single instruction, the two must be the same row: a
+    float opcode done with an integer instruction in one back end (pcmpeqd for cmpeqf ...) is not subject to FTZ/DAZ and gives
+    other masks for +0/-0 and denormals than the other back end, the emulator and the generated C."""
+    from x86guard import Backend
+    orows = {r["name"]: r for r in init_rows(db.tu("orcopcodes-sys").global_("opcodes")) if isinstance(r, dict) and r.get("name")}
+    per = {}
+    for target in ("sse", "avx"):
+        be = Backend(db, target)
+        for fn, op, w in be.registrations():
+            if op not in orows or not (orows[op]["flags"] & FLOAT) or fn is None:
+                continue
+            f = db.func(fn, be.rules_tu.base[:-2])
+            names = set()
+            unknown = False
+            for c in f.calls():
+                if c.name and "emit_cpuinsn" in c.name and len(c.args()) > 1:
+                    vals = be.row_values(f, c.args()[1])
+                    if vals is None:
+                        unknown = True
+                    else:
+                        names |= {be.rows[v]["name"] for v in vals if 0 <= v < len(be.rows)}
+            others = [c for c in f.calls() if c.name and ("emit" in c.name or "load_constant" in c.name or "get_temp" in c.name) and "emit_cpuinsn" not in c.name]
+            per.setdefault(op, {})[target] = (f, names, unknown or bool(others))
+    n = 0
+    for op, d in sorted(per.items()):
+        if "sse" not in d or "avx" not in d:
+            continue
+        (fs, ns, us), (fa, na, ua) = d["sse"], d["avx"]
+        MOVES = {"movdqa", "movdqu", "movaps", "movups", "movq"}     # two-operand forms first copy a source into the destination
+        ns, na = ns - MOVES, na - MOVES
+        if us or ua or len(ns) != 1 or len(na) != 1:
+            continue
+        n += 1
+        rep.saw(fa)
+        rep.check(ns == na, "D6-SIBLING-ROWS", where(fa), "%s:sse=%s" % (op, sorted(ns)[0]),
+                  "both back ends implement %s with `%s`" % (op, sorted(ns)[0]),
+                  "the AVX rule of the float opcode %s emits `%s` where the SSE rule emits `%s`: one of them is not the floating-point instruction the "
+                  "opcode stands for, so the two back ends (and emulation) disagree on +0/-0, denormal and NaN operands" % (op, sorted(na)[0], sorted(ns)[0]), line=fa.line)
+    if n < 10:
+        raise AnalysisBroken("only %d single-instruction float rules present in both back ends" % n)
